@@ -86,6 +86,19 @@ func r052(c *Ctx, r *R) {
 	// TrackNewOperation receives enqueue's own pin and type
 	ta := callArgs(tno[0].Common())
 	r.Check(paramIndex(f, ta[1]) == 2 && paramIndex(f, ta[2]) == 3, "track-args", tno[0].Pos(), "the operation is created for the given pin and type", "the tracked operation is not created from enqueue's pin/type arguments")
+	// must-pass-through: no exit of enqueue before the request is on
+	// record in the operation tracker (as queued, failed or deduplicated):
+	// a request refused without a record is invisible to Status and to
+	// RecoverAll, and the consensus callers only log the error
+	for _, b := range f.Blocks {
+		if b == f.Recover || len(b.Instrs) == 0 {
+			continue
+		}
+		if ret, ok := b.Instrs[len(b.Instrs)-1].(*ssa.Return); ok {
+			tb := tno[0].Block()
+			r.Check(tb == b || tb.Dominates(b), "recorded-before-return", ret.Pos(), "the exit is reached only after TrackNewOperation recorded the request", "enqueue can return without having recorded the request in the operation tracker: the refused operation leaves no queued/error entry, so Status reports the old state and RecoverAll never retries it")
+		}
+	}
 	var sel *ssa.Select
 	instrs(f, func(i ssa.Instruction) {
 		if s, ok := i.(*ssa.Select); ok {
